@@ -191,8 +191,8 @@ func (mgrScenario) Gen(r *Rng, tier string, opts map[string]string) interface{} 
 			p.Events = append(p.Events, mgrEvent{AtMs: t + r.Pick(1, 50, 500), Kind: "close_server_sessions", N: 1})
 		}
 		p.Events = append(p.Events, mgrEvent{AtMs: t + 3500 + r.Intn(1000), Kind: "old_close"})
-	default: // C15: pool histories, occasional session loss
-		if r.Chance(1, 4) {
+	default: // C15 (and C09): pool histories, occasional session loss
+		if prop != "C09" && r.Chance(1, 4) {
 			p.Events = append(p.Events, mgrEvent{AtMs: next(), Kind: "close_server_sessions", N: 1})
 		}
 	}
@@ -613,6 +613,7 @@ func (w *mgrWorld) use(caller, useIdx int, u usePlan, mustSucceed bool) (ok bool
 		if n := st.BufferReader().Len(); n != 0 {
 			w.fail("C15.stale_bytes", w.staleTags(st), "caller %d use %d: stream %d came out of the pool with %d unread bytes of an earlier use", caller, useIdx, st.StreamID(), n)
 			release()
+			_ = st.Close()
 			return false
 		}
 	}
@@ -658,6 +659,7 @@ func (w *mgrWorld) use(caller, useIdx int, u usePlan, mustSucceed bool) (ok bool
 			if got[j] != mgrByte(caller, useIdx, j) {
 				w.fail("C15.stale_bytes", w.staleTags(st), "caller %d use %d: the response read on stream %d does not belong to this use (byte %d differs): bytes of an earlier use or of another caller", caller, useIdx, st.StreamID(), j)
 				release()
+				_ = st.Close() // a caller that gets garbage gives the stream up
 				return false
 			}
 		}
@@ -963,6 +965,52 @@ func (w *mgrWorld) settledOracles() {
 		return
 	}
 	simrt.Sleep(3 * time.Second)
+	// C09: with no stream in use, the only shared-memory buffers still allocated are the slices that pooled streams
+	// keep for their next write (ReleaseReadAndReuse). The sessions of one manager share one buffer manager.
+	// (only in runs without session loss: buffers that were in flight to or held by a lost session stay allocated in
+	// the buffer manager that its sibling sessions keep alive - session loss is the subject of C14/C17, not of C09)
+	if w.on("C09") && !w.faulty {
+		reserved := map[*bufferManager]int{}
+		unread := map[*bufferManager]bool{}
+		var bms []*bufferManager
+		for _, pool := range sm.pools {
+			s := pool.Session()
+			if s == nil || s.IsClosed() || s.bufferManager == nil {
+				continue
+			}
+			bm := s.bufferManager
+			if _, seen := reserved[bm]; !seen {
+				reserved[bm] = 0
+				bms = append(bms, bm)
+			}
+			pool.Lock()
+			for k := pool.head; k < pool.tail; k++ {
+				if st := pool.streams[k%uint64(pool.capacity)]; st != nil && st.session == s {
+					if st.recvBuf.len > 0 || len(st.pendingData.unread) > 0 {
+						unread[bm] = true // bytes that arrived late for a pooled stream are unread data, not a leak
+					}
+					for _, lb := range []*linkedBuffer{st.sendBuf, st.recvBuf} {
+						for sl := lb.sliceList.frontSlice; sl != nil; sl = sl.nextSlice {
+							if sl.isFromShm {
+								reserved[bm]++
+							}
+						}
+					}
+				}
+			}
+			pool.Unlock()
+		}
+		for _, bm := range bms {
+			if unread[bm] {
+				continue
+			}
+			if n := shmInUse(bm); n != reserved[bm] {
+				w.fail("C09.leak", nil, "callers hold no stream, the pooled streams keep %d slice(s) for reuse, but %d shared-memory buffers are allocated", reserved[bm], n)
+				return
+			}
+			w.probes["pool_memory_balanced"]++
+		}
+	}
 	// C15: the active-stream count returns to what callers hold (nothing) plus what sits in the pools
 	if w.on("C15") {
 		for i, pool := range sm.pools {
